@@ -79,7 +79,7 @@ def gen_case(rng: random.Random, tier: str, bias: str = ''):
                      ('pct', 2, 600, 0.0), ('pct', 3, 600, 0.0)])
     return dict(kind=kind, n=n, src=src, cap=cap, conc=conc, rexc=rng.random() < 0.6, retx=rng.random() < 0.5,
                 pre=pre, pf=pf, re=re, stop_after=stop_after, dur=dur, chooser=list(ch),
-                seed=rng.randrange(1 << 30))
+                two_loops=rng.random() < 0.3, seed=rng.randrange(1 << 30))
 
 
 def nontrivial(case, res):
@@ -299,7 +299,14 @@ def _one_side(case, asynchronous):
             out.extend((i,) + res[i] for i in range(n))
             return ('end',)
 
-    async def async_main():
+    async def warm_session(srv):
+        """an earlier session of the SAME AsyncServer object, on another event loop, in which callers had to wait
+        for room (capacity + 2 concurrent calls without backpressure)"""
+        async with srv:
+            await asyncio.gather(*[srv.call(off + n + 10 + j, timeout=FOREVER, backpressure=False)
+                                   for j in range(case['cap'] + 2)], return_exceptions=True)
+
+    async def async_main(srv0=None):
         if kind == 'apmap_thread':
             _SA.ThreadPoolExecutor = LoggingTPE
             try:
@@ -309,7 +316,7 @@ def _one_side(case, asynchronous):
                 return await async_consume(gen)
             finally:
                 _SA.ThreadPoolExecutor = _OrigTPE
-        async with AsyncServer(ThreadServlet(W, num_threads=case['conc']), capacity=case['cap']) as srv:
+        async with (srv0 if srv0 is not None else AsyncServer(ThreadServlet(W, num_threads=case['conc']), capacity=case['cap'])) as srv:
             if kind == 'srv_stream':
                 orig_enqueue = srv._enqueue
 
@@ -333,9 +340,23 @@ def _one_side(case, asynchronous):
     def main():
         if not asynchronous or kind == 'pmap_async':
             return sync_main()
+        srv0 = None
+        if case.get('two_loops') and kind in ('srv_stream', 'srv_call'):
+            # the server object has already been used in a session on a different event loop
+            srv0 = AsyncServer(ThreadServlet(W, num_threads=case['conc']), capacity=case['cap'])
+            loop0 = cooploop.CoopLoop()
+            try:
+                loop0.run_until_complete(warm_session(srv0))
+            finally:
+                try:
+                    loop0.run_until_complete(loop0.shutdown_asyncgens())
+                    loop0.run_until_complete(loop0.shutdown_default_executor())
+                finally:
+                    loop0.close()
+            calls.clear()
         loop = cooploop.CoopLoop()
         try:
-            return loop.run_until_complete(async_main())
+            return loop.run_until_complete(async_main(srv0))
         finally:
             try:
                 loop.run_until_complete(loop.shutdown_asyncgens())
